@@ -6,8 +6,8 @@ from fractions import Fraction
 from lib.core import *
 
 ID = "C10"
-PROPS_FILES = ["Gama/Props/C10.lean", "Gama/Props/C10YSign.lean"]
-LEAN_TARGETS = ["Gama.Props.C10", "Gama.Props.C10YSign"]
+PROPS_FILES = ["Gama/Props/C10.lean", "Gama/Props/C10YSign.lean", "Gama/Props/C10HomSites.lean"]
+LEAN_TARGETS = ["Gama.Props.C10", "Gama.Props.C10YSign", "Gama.Props.C10HomSites"]
 DRIVERS = ["drv_cov"]
 RULE = ("CovMat/BandMat index maps for every dim 1..8 x band 0..dim-1 (exhaustive); band LDL' / Cholesky / forward "
         "substitution on SPD matrices L L' built from small integers, every band; Cluster::activeCov for EVERY active "
@@ -1414,6 +1414,17 @@ def translate(ctx):
     f = ctx.lean / "Gama" / "Gen" / "YSign.lean"
     if not f.exists() or f.read_text() != text:
         f.write_text(text)
+    # round 7: throw / phase order / forward substitution of Homogenization::run and the dimension guards of the
+    # cluster finishers as a regenerated table (Gen/HomogenizationSites.lean), read by Props/C10HomSites.lean
+    sys.path.insert(0, str(VERIF / "tools"))
+    from gen import c10_homsites
+    try:
+        if c10_homsites.run(ctx.repo, ctx.lean):
+            ctx.log("Gen/HomogenizationSites.lean regenerated (content changed)")
+    except c10_homsites.Unparsable as e:
+        raise TieBroken("c10_homsites translator", str(e))
+    except (OSError, IndexError, ValueError, KeyError) as e:
+        raise TieBroken("c10_homsites translator", repr(e))
 
 
 def replay(ctx, payload):
